@@ -44,18 +44,20 @@ def imap_match(pattern, name):
     return re.fullmatch(rx, name, flags) is not None
 
 
-def disk_tree(root):
+def disk_tree(root, msgs=False):
     out = set()
     for dirpath, dirnames, _ in os.walk(root):
         for d in dirnames:
             p = os.path.relpath(os.path.join(dirpath, d), root)
             out.add(p)
-    # symlinks left behind count as well
+    # symlinks left behind count as well, and so do the message files
     for dirpath, dirnames, filenames in os.walk(root):
         for f in filenames:
             fp = os.path.join(dirpath, f)
             if os.path.islink(fp):
                 out.add("LINK:" + os.path.relpath(fp, root))
+            elif msgs and f.isdigit():
+                out.add("MSG:" + os.path.relpath(fp, root))
     return out
 
 
@@ -186,7 +188,7 @@ async def ns_step(hp, w, rnd, ss, pool):
     existing = [n for n in w.boxes if n not in SPECIAL]
     live = [n for n in existing if not w.boxes[n].noselect]
     op = rnd.choice(["create", "create", "create", "delete", "delete", "rename", "rename", "subscribe", "unsubscribe", "bad", "append", "restart"])
-    before_tree = disk_tree(str(w.rig.maildir))
+    before_tree = disk_tree(str(w.rig.maildir), msgs=True)
     r = None
     if op == "create":
         nm = rnd.choice(pool + existing[:3])
@@ -226,8 +228,13 @@ async def ns_step(hp, w, rnd, ss, pool):
         ss = w.session()
     elif op == "bad":
         txt = rnd.choice(["CREATE INBOX", "DELETE INBOX", 'DELETE "INBOX"', "DELETE InBoX", "RENAME nosuch other", "DELETE nosuch", "CREATE 123", 'CREATE ""', 'RENAME a ""', "CREATE a/", "RENAME INBOX INBOX"])
+        if rnd.random() < 0.4:
+            # other spellings that the server's own name normalisation turns into INBOX
+            sp = rnd.choice(["INBOX/", "/INBOX", "./Inbox", "x/../INBOX", "inbox/.", "INBOX//", '"/inbox/"', "./x/../InBox"])
+            txt = rnd.choice([f"DELETE {sp}", f"DELETE {sp}", f"CREATE {sp}", f"RENAME {wire_name(rnd.choice(live))} {sp}" if live else f"DELETE {sp}"])
+            w.stats["inbox_spelling_cmds"] += 1
         r = await w._cmd(ss, txt)
-        if r.ok and txt.split()[0] in ("DELETE", "CREATE") and "INBOX" in txt.upper() or (r.ok and "nosuch" in txt):
+        if r.ok and txt.split()[0] in ("DELETE", "CREATE") and "INBOX" in txt.upper() or (r.ok and "nosuch" in txt) or (r.ok and txt.startswith("RENAME") and "INBOX" in txt.upper().split()[-1] and txt != "RENAME INBOX INBOX" and "nosuch" not in txt):
             w.viol(["C17"], "invalid-namespace-command-accepted", txt)
         if r.ok and txt == "CREATE a/":
             if "a" not in w.boxes:
@@ -243,7 +250,7 @@ async def ns_step(hp, w, rnd, ss, pool):
             w.boxes["123"] = MBox("123")
     if r is not None and not r.ok:
         w.stats["refused_namespace_cmds"] += 1
-        after_tree = disk_tree(str(w.rig.maildir))
+        after_tree = disk_tree(str(w.rig.maildir), msgs=True)
         if after_tree != before_tree:
             w.viol(["C17"], "refused-command-changed-the-tree", f"{w.steps[-1]}: +{sorted(after_tree - before_tree)} -{sorted(before_tree - after_tree)}")
         if w.obs.writer.closed or ss.s.writer.closed:
